@@ -579,3 +579,17 @@ Proof. exact srctext_refuted. Qed.
 Example C02_ex_source_text_nonvacuous : let T := bs "  " ++ [xc9] ++ bs "t" ++ [xe9; x85; xa0] ++ bs " 2024 " in
   in_frag T = true /\ no_byte_space_lead T = true /\ doc_code T = bs "<p>" ++ [xc9] ++ bs "t" ++ [xe9; x85; xa0] ++ bs " 2024 </p>".
 Proof. exact srctext_nonvacuous. Qed.
+
+(* several lines: the content `\nL1\n...\nLn\n<indentation>` of `<p>...</p>`, every Li a line of the fragment (its indentation is its
+   leading white space).  [doc_spec_lines]: a line break with the white space after it is one space between two lines, nothing at
+   the edges; every other byte as it stands.  [doc_code_lines]: the leading run of a later line is taken as the trailing space of
+   the text in front of it - byte-wise, 85 and A0 included.  Again an exact guard: the documents are equal iff NO line has a byte
+   85 / A0 first after its ASCII white space. *)
+Theorem C02_source_lines_rendered_as_written_partial : forall Ls : list bytes, (forall L, In L Ls -> in_frag L = true) ->
+  (doc_code_lines Ls = doc_spec_lines Ls <-> forall L, In L Ls -> no_byte_space_lead L = true).
+Proof. exact lines_exact. Qed.
+Print Assumptions C02_source_lines_rendered_as_written_partial.
+
+Example C02_ex_source_lines_witness : let Ls := [bs "  A la carte  "; [x09; xa0] ++ bs "5 EUR"; bs "Fin"] in
+  forallb in_frag Ls = true /\ doc_spec_lines Ls = bs "<p>A la carte   " ++ [xa0] ++ bs "5 EUR Fin</p>" /\ doc_code_lines Ls = bs "<p>A la carte   5 EUR Fin</p>".
+Proof. exact srctext_lines_witness. Qed.
